@@ -211,8 +211,34 @@ def reduce_coverage(facts, res):
         if len(red) != 1:
             raise AnalysisBroken("%s::Reduce not found" % cls)
         m = red[0]
-        p1, p2 = [p["did"] for p in m["params"]]
         b = tbf.body(m)
+        # generic form: the fields listed once as pointers to member, each summed over all operands with std::accumulate
+        ptrs = [y.get("name") or (y.get("qname") or "").split("::")[-1] for y in walk(b) if y.get("k") == "UnaryOperator" and y.get("op") == "&" and kids(y)
+                and strip(kids(y)[0]).get("k") in ("DeclRefExpr", "DependentScopeDeclRefExpr") and (strip(kids(y)[0]).get("name") in fields)]
+        ptrs = [strip(kids(y)[0]).get("name") for y in walk(b) if y.get("k") == "UnaryOperator" and y.get("op") == "&" and kids(y) and strip(kids(y)[0]).get("name") in fields]
+        accs = [y for y in walk(b) if y.get("k") == "CallExpr" and tbf.callee_name(y) == "accumulate"]
+        if ptrs and accs:
+            f_ = tbf.rel(facts.path_of(m))
+            for fld in fields:
+                k_ = ptrs.count(fld)
+                res.instance("C18.3.reduce-covers-fields", "%s::%s" % (cls, fld), facts.loc(m), "listed %d time(s) in the pointer-to-member list" % k_)
+                if k_ != 1:
+                    res.violation("C18.3.reduce-covers-fields", f_, m["qname"], fld, m["l"][1], "field %s of %s appears %d time(s) in the list of merged fields (once expected)" % (fld, cls, k_))
+            ftypes = {f2["name"]: f2.get("t", "") for f2 in c[0]["fields"]}
+            for a_ in accs:
+                args = tbf.call_args(a_)
+                init = strip(args[2]) if len(args) >= 3 else None
+                t_init = (init or {}).get("t", "")
+                lit_int = init is not None and init.get("k") == "IntegerLiteral" and t_init in ("int", "")
+                wide = set(ftypes.values())
+                res.instance("C18.3.reduce-covers-fields", "%s::Reduce accumulate@%d" % (cls, a_["l"][1]), facts.loc(a_), "initial value `%s` of type %s; fields are %s" % (facts.ntext(init)[:30] if init else "?", t_init or "int", sorted(wide)))
+                if init is None or lit_int or (t_init in ("int", "unsigned int", "float") and any(t_ not in ("int", "unsigned int", "float") for t_ in wide)):
+                    res.violation("C18.3.reduce-covers-fields", f_, m["qname"], "accumulate-type@%d" % a_["l"][1], a_["l"][1],
+                                  "std::accumulate sums the %s fields of %s starting from `%s`, an %s: the running sum has that type, so a merged count of 2^31 or more is truncated although every per-worker counter is exact" % ("/".join(sorted(wide)), cls, facts.ntext(init)[:20] if init else "?", t_init or "int"))
+            continue
+        if len(m["params"]) != 2:
+            raise AnalysisBroken("%s::Reduce has %d parameters and is not the pointer-to-member / accumulate form: re-confirm by reading" % (cls, len(m["params"])))
+        p1, p2 = [p["did"] for p in m["params"]]
         seen = {f: {"a": 0, "b": 0} for f in fields}
         seeded_from_a = False
         for x in walk(b):
